@@ -28,6 +28,7 @@ class Result:
         self.known_hits = collections.OrderedDict()
         self.unknown = collections.OrderedDict()   # key -> first failure
         self.slow = 0
+        self.timeouts_seen = 0
 
     def add(self, f):
         self.failures.append(f)
@@ -65,6 +66,15 @@ class Result:
             f2['common_preds'] = sorted(u['preds'])
             f2['cells_failing'] = u['count']
             json.dump(f2, open(path, 'w'), indent=1)
+            if f.get('sig', '') == 'timeout':
+                # time-outs are only ever reported after the sub-cell has been re-run alone with a long limit; at most 8 of them
+                # are re-run per check (each may take minutes), the others stay unverified sub-cells (counted under 'timeouts')
+                self.timeouts_seen += 1
+                if self.timeouts_seen > 8:
+                    log('NOTE property=%s %s %s src=%s op=%s: exceeded the per-operation time limit in the sharded run; not re-run (more than 8 time-outs in this run), nothing is claimed for this sub-cell' % (
+                        self.prop, f['kind'], f['params'], f['src'], f['op']))
+                    self.slow += 1
+                    continue
             ok, text = replay_fn(f) if replay_fn else (True, '')
             if ok and text:
                 f2['replay_note'] = text
